@@ -35,22 +35,23 @@ def shipped(acc):
     return cc.records("C02", res, cs, {"badpair", "badopt"})
 
 
-def cse_guards(acc, tier):
+def cse_guards(acc, tier, prop="C02", builds=None, take=None):
     """M: CseGuards.tla, the covering rule under which a repeated subexpression may be bound above the conditions around
     its instances, checked by TLC over all 314,436 trees of depth 2 (conditions are trees themselves) (safe under the rule that examines the conditions above *any*
     instance; the rule that examines only those above the first instance is refuted: non-vacuity).  R: every tree with two
     or more instances is compiled as a function body and run on the eight (guard, guard, failing?) rows."""
-    r = core.run_tlc("MC_CseGuards", "MC_CseGuards_any.cfg", "C02_cseguards", workers=8, timeout=1500, coverage=False)
+    r = core.run_tlc("MC_CseGuards", "MC_CseGuards_any.cfg", f"{prop}_cseguards", workers=8, timeout=1500, coverage=False)
     if not r.ok:
         raise core.ToolError(f"CseGuards: HoistingIsSafe violated under the rule the compiler uses: {r.invariant_violated}")
     acc.add_tlc("CseGuards[any]", r)
     for cfg, what in (("MC_CseGuards_first.cfg", "the first-instance-only rule is not refuted"), ("MC_CseGuards_nonvacuous.cfg", "no tree is ever hoisted")):
-        rv = core.run_tlc("MC_CseGuards", cfg, "C02_cseguards_nv", workers=4, timeout=900, coverage=False)
+        rv = core.run_tlc("MC_CseGuards", cfg, f"{prop}_cseguards_nv", workers=4, timeout=900, coverage=False)
         if rv.ok or not rv.invariant_violated:
             raise core.ToolError(f"CseGuards is vacuous: {what}")
     acc.notes.append("CseGuards non-vacuity: the first-instance-only covering rule violates HoistingIsSafe, and some trees are saturated")
-    out = os.path.join(core.BUILD, "C02_cseguards.report.json")
-    core.run_vh(["replay-cse", "--in", r.out_path, "--out", out, "--builds", ",".join(ALL), "--take", "600" if tier == "quick" else "12000"], timeout=6000)
+    out = os.path.join(core.BUILD, f"{prop}_cseguards.report.json")
+    core.run_vh(["replay-cse", "--in", r.out_path, "--out", out, "--builds", ",".join(builds or ALL), "--prop", prop,
+                 "--take", str(take or (600 if tier == "quick" else 12000))], timeout=6000)
     os.remove(r.out_path)
     rep = core.load_json(out)
     if rep["evaluations"] == 0:
